@@ -233,10 +233,15 @@ end
 def evalDefault (gpt : Nat → List PT → PT) (args : Nat) (ths : List Seq) : Seq :=
   (gpt args (ths.map gapLeaf)).th
 
-/-- Default `Macro.expand`: `get_proof_term(args, [ProofTerm.atom(id, th) ...]).export(prefix)`. -/
-def expandDefault (same : Seq → Seq → Bool) (gpt : Nat → List PT → PT) (pfx : ItemId) (args : Nat)
-    (prevs : List (ItemId × Seq)) : Except Err (List Item) :=
-  exportPT same pfx (gpt args (prevs.map fun p => PT.atom p.1 p.2))
+/-- Default `Macro.expand` (since the fix): `pt = get_proof_term(args, [ProofTerm.atom(id, th) ...])`;
+a result that is one of the premises unchanged is restated,
+`pt = ProofTerm.assume(pt.prop).implies_intr(pt.prop).implies_elim(pt)` (the parameter `restate`: the
+sequents of the three new nodes are computed by the kernel rules, which are opaque here); then
+`pt.export(prefix)`. -/
+def expandDefault (same : Seq → Seq → Bool) (restate : PT → PT) (gpt : Nat → List PT → PT) (pfx : ItemId)
+    (args : Nat) (prevs : List (ItemId × Seq)) : Except Err (List Item) :=
+  let pt := gpt args (prevs.map fun p => PT.atom p.1 p.2)
+  exportPT same pfx (if pt.isAtom then restate pt else pt)
 
 mutual
 /-- the sequents stated by the derivation nodes of a proof term -/
